@@ -82,6 +82,15 @@ def run_prog_check(prop, props_files, tier, oracles, features=gen_prog.ALL, n_qu
                 r = proglayer.oracle_c13(evs, term, cs)
                 if r:
                     found.append((r, None))
+            elif o == "c15":
+                for p_, msg, tag in proglayer.oracle_c15(evs, term, cs):
+                    found.append((msg, tag))
+            elif o.startswith("sync2"):
+                want = o.split(":")[1:]
+                if not term.startswith("panic") and "pn" not in c:
+                    for p_, msg, tag in proglayer.oracle_sync2(evs, term, cs):
+                        if not want or p_ in want:
+                            found.append((msg, tag))
             elif o.startswith("objects"):
                 want = o.split(":")[1:]
                 if not term.startswith("panic") and "pn" not in c:
